@@ -78,6 +78,41 @@ def u_exp(a):
     return r
 
 
+_SIGMOID = z3.Function('sigmoid', z3.RealSort(), z3.RealSort())
+_TANH = z3.Function('tanh', z3.RealSort(), z3.RealSort())
+
+
+def u_sigmoid(a):
+    """uninterpreted function with range (0, 1) (monotonicity is not stated: not needed so far)"""
+    if not is_sym(a):
+        return 1.0 / (1.0 + math.exp(-a))
+    r = _SIGMOID(to_real(a))
+    PATH().add_side(z3.And(r > 0, r < 1))
+    return r
+
+
+def u_tanh(a):
+    if not is_sym(a):
+        return math.tanh(a)
+    r = _TANH(to_real(a))
+    PATH().add_side(z3.And(r > -1, r < 1))
+    return r
+
+
+def global_avg_pool(x, nd):
+    """adaptive average pooling to output size 1: mean over the last nd dimensions"""
+    x = _t(x)
+    lead = x.shape[:-nd]
+    inner = _prod(x.shape[-nd:])
+    els = []
+    for o in range(_prod(lead)):
+        acc = 0
+        for i in range(inner):
+            acc = s_add(acc, x.els[o * inner + i])
+        els.append(s_div(acc, inner))
+    return Tensor(lead + (1,) * nd, els)
+
+
 def u_log(a):
     if not is_sym(a):
         return math.log(a)
@@ -314,6 +349,40 @@ def f_batch_norm_eval(x, rm, rv, w, b, eps):
             y = s_add(y, b.els[c])
         els.append(y)
     return Tensor(x.shape, els)
+
+
+def f_batch_norm_train(x, w, b, eps):
+    """training-mode batch norm: normalisation with the (biased) batch statistics; returns (y, batch mean, unbiased batch variance)"""
+    x = _t(x)
+    if len(x.shape) < 2:
+        raise Unsupported('batch_norm on a 1-d input')
+    C = x.shape[1]
+    inner = _prod(x.shape[2:]) if len(x.shape) > 2 else 1
+    n = x.shape[0] * inner
+    if n <= 1:
+        raise ValueError(f'Expected more than 1 value per channel when training, got input size {list(x.shape)}')
+    sums = [0] * C
+    for idx, v in enumerate(x.els):
+        c = (idx // inner) % C
+        sums[c] = s_add(sums[c], v)
+    mean = [s_div(t, n) for t in sums]
+    sq = [0] * C
+    for idx, v in enumerate(x.els):
+        c = (idx // inner) % C
+        d = s_sub(v, mean[c])
+        sq[c] = s_add(sq[c], s_mul(d, d))
+    var = [s_div(t, n) for t in sq]
+    r = [u_rsqrt(s_add(v, eps)) for v in var]
+    els = []
+    for idx, v in enumerate(x.els):
+        c = (idx // inner) % C
+        y = s_mul(s_sub(v, mean[c]), r[c])
+        if w is not None:
+            y = s_mul(y, w.els[c])
+        if b is not None:
+            y = s_add(y, b.els[c])
+        els.append(y)
+    return Tensor(x.shape, els), mean, [s_div(t, n - 1) for t in sq]
 
 
 # ------------------------------------------------------------------------------------------ nn.Module stubs
@@ -555,10 +624,26 @@ def build_nn(interp, torch):
 
     def bn_forward(it, self, x):
         a = self.attrs
-        if a['training'] or a['_buffers']['running_mean'] is None:
-            raise Unsupported('BatchNorm forward with batch statistics (training mode)')
         if _t(x).shape[1 if len(_t(x).shape) > 1 else 0] != a['num_features']:
             raise RaiseEx(RuntimeError('BatchNorm: wrong number of features'))
+        if a['training'] or a['_buffers']['running_mean'] is None:
+            # batch statistics; in training mode the running statistics are updated in place (momentum rule)
+            try:
+                y, mean, uvar = f_batch_norm_train(x, a['_parameters']['weight'], a['_parameters']['bias'], a['eps'])
+            except ValueError as e:
+                raise RaiseEx(e)
+            B = a['_buffers']
+            if a['training'] and B['running_mean'] is not None:
+                if a['momentum'] is None:
+                    raise Unsupported('BatchNorm with cumulative moving average (momentum=None)')
+                mo = a['momentum']
+                rm, rv = B['running_mean'], B['running_var']
+                rm.els = [s_add(s_mul(1 - mo, o), s_mul(mo, m_)) for o, m_ in zip(rm.els, mean)]
+                rv.els = [s_add(s_mul(1 - mo, o), s_mul(mo, v_)) for o, v_ in zip(rv.els, uvar)]
+                nb = B.get('num_batches_tracked')
+                if nb is not None:
+                    nb.els = [s_add(nb.els[0], 1)]
+            return y
         return f_batch_norm_eval(x, a['_buffers']['running_mean'], a['_buffers']['running_var'], a['_parameters']['weight'],
                                  a['_parameters']['bias'], a['eps'])
 
@@ -593,8 +678,17 @@ def build_nn(interp, torch):
     PAD2D = simple('nn.ConstantPad2d', {'padding': 0, 'value': 0}, lambda it, s, x: f_pad(x, _tup(s.attrs['padding'], 4), value=s.attrs['value']))
     pools = {n: simple('nn.' + n, {'kernel_size': None, 'stride': None, 'padding': 0}) for n in
              ('MaxPool1d', 'MaxPool2d', 'AvgPool1d', 'AvgPool2d')}
-    apools = {n: simple('nn.' + n, {'output_size': None}) for n in ('AdaptiveAvgPool1d', 'AdaptiveAvgPool2d')}
-    misc = {n: simple('nn.' + n, {}) for n in ('SiLU', 'Sigmoid', 'Tanh', 'Upsample', 'Softmax')}
+    def apool_forward(nd):
+        def fwd(it, s, x):
+            os_ = s.attrs['output_size']
+            if os_ not in (1, (1,) * nd, [1] * nd):
+                raise Unsupported('adaptive average pooling to an output size other than 1')
+            return global_avg_pool(x, nd)
+        return fwd
+    apools = {n: simple('nn.' + n, {'output_size': None}, apool_forward(d)) for n, d in (('AdaptiveAvgPool1d', 1), ('AdaptiveAvgPool2d', 2))}
+    misc = {n: simple('nn.' + n, {}) for n in ('SiLU', 'Upsample', 'Softmax')}
+    misc['Sigmoid'] = simple('nn.Sigmoid', {}, lambda it, s, x: _t(x).map(u_sigmoid))
+    misc['Tanh'] = simple('nn.Tanh', {}, lambda it, s, x: _t(x).map(u_tanh))
 
     def seq_init(it, self, *mods):
         m_init(it, self)
@@ -639,6 +733,96 @@ def build_nn(interp, torch):
         rg = requires_grad
         return Tensor(t.shape, t.els, requires_grad=rg, is_param=True)
 
+    # ---- torch.fx: Tracer / GraphModule / ShapeProp as executable library contracts (pyvc/fxtrace.py)
+    from . import fxtrace as FT
+
+    def tr_init(it, self, *a, **k):
+        self.attrs['root'] = None
+
+    def tr_trace(it, self, root, concrete_args=None):
+        self.attrs['root'] = root
+        return FT.trace(it, self, root, FxGraph, FxNode)
+
+    def tr_is_leaf(it, self, m, qualname):
+        mod = it.getattr(m, '__module__')
+        return (mod.startswith('torch.nn') or mod.startswith('torch.ao.nn')) and SEQ not in m.cls.mro()
+    TRACER = S('fx.Tracer', {'__init__': tr_init, 'trace': tr_trace, 'is_leaf_module': tr_is_leaf})
+
+    def _container(it):
+        return it.instantiate(MODULE, [], {})
+
+    def gm_put(it, self, target, m):
+        parts = target.split('.')
+        cur = self
+        for p_ in parts[:-1]:
+            nxt = cur.attrs['_modules'].get(p_)
+            if nxt is None:
+                nxt = _container(it)
+                cur.attrs['_modules'][p_] = nxt
+            cur = nxt
+        cur.attrs.pop(parts[-1], None)
+        cur.attrs['_modules'][parts[-1]] = m
+        return True
+
+    def gm_init(it, self, root, graph, class_name='GraphModule'):
+        m_init(it, self)
+        self.attrs['graph'] = graph
+        self.attrs['_class_name'] = class_name
+        self.attrs['training'] = root.attrs.get('training', True) if isinstance(root, I.Obj) else True
+        graph.owning_module = self
+        for n in graph.nodes:
+            if n.op == 'call_module':
+                gm_put(it, self, str(n.target), m_get_submodule(it, root, str(n.target)))
+            elif n.op == 'get_attr':
+                raise Unsupported('get_attr node')
+
+    def gm_forward(it, self, *args):
+        return FT.run_graph(it, self.attrs['graph'], lambda t: m_get_submodule(it, self, t), args)
+
+    def gm_delete_submodule(it, self, target):
+        parts = target.split('.')
+        cur = self
+        for p_ in parts[:-1]:
+            cur = cur.attrs['_modules'].get(p_)
+            if cur is None:
+                return False
+        if parts[-1] not in cur.attrs['_modules']:
+            return False
+        del cur.attrs['_modules'][parts[-1]]
+        return True
+
+    def gm_delete_unused(it, self):
+        used = set()
+        for n in self.attrs['graph'].nodes:
+            if n.op == 'call_module':
+                parts = str(n.target).split('.')
+                for i in range(1, len(parts) + 1):
+                    used.add('.'.join(parts[:i]))
+        called = [str(n.target) for n in self.attrs['graph'].nodes if n.op == 'call_module']
+        for name, _ in named_modules(it, self):
+            if name == '' or name in used or any(name.startswith(c + '.') for c in called):
+                continue
+            gm_delete_submodule(it, self, name)
+
+    GRAPHMODULE = S('fx.GraphModule', {'__init__': gm_init, 'forward': gm_forward, 'add_submodule': gm_put, 'delete_submodule': gm_delete_submodule,
+                                       'delete_all_unused_submodules': gm_delete_unused, 'recompile': lambda it, s: None,
+                                       'print_readable': lambda it, s, *a, **k: ''}, (MODULE,))
+
+    def sp_init(it, self, gm, *a, **k):
+        self.attrs['module'] = gm
+
+    def sp_propagate(it, self, *args):
+        gm = self.attrs['module']
+
+        def record(n, r):
+            if isinstance(r, Tensor):
+                n.meta['tensor_meta'] = FT.TensorMeta(r.shape)
+            elif isinstance(r, (tuple, list)) and r and all(isinstance(x, Tensor) for x in r):
+                n.meta['tensor_meta'] = type(r)(FT.TensorMeta(x.shape) for x in r)
+            n.meta['type'] = type(r)
+        return FT.run_graph(it, gm.attrs['graph'], lambda t: m_get_submodule(it, gm, t), args, record)
+    SHAPEPROP = S('ShapeProp', {'__init__': sp_init, 'propagate': sp_propagate, 'run': sp_propagate})
+
     PARAM = S('nn.Parameter', {})
     nn = I.NS('torch.nn', Module=MODULE, Conv1d=CONV1D, Conv2d=CONV2D, Conv3d=CONV3D, Linear=LINEAR, BatchNorm1d=BN1D,
               BatchNorm2d=BN2D, Identity=IDENT, ReLU=RELU, ReLU6=RELU6, Dropout=DROPOUT, Flatten=FLATTEN,
@@ -646,6 +830,7 @@ def build_nn(interp, torch):
               **pools, **apools, **misc)
     nn.parameter = I.NS('torch.nn.parameter', Parameter=nn.Parameter)
     nn.modules = I.NS('torch.nn.modules', conv=I.NS('conv', _ConvNd=CONVND), batchnorm=I.NS('bn', _BatchNorm=BNBASE))
+    nn._fx_stubs = dict(Tracer=TRACER, GraphModule=GRAPHMODULE, ShapeProp=SHAPEPROP)
     return nn
 
 
@@ -1017,6 +1202,8 @@ def install(interp):
     torch.le = lambda a, b: _t(a).le(b)
     torch.where = lambda c, a, b: _t(a).expand_to(_t(c).shape).where(_t(c), b) if isinstance(a, Tensor) else Tensor.full(_t(c).shape, a).where(_t(c), b)
     torch.cat = lambda ts, dim=0: cat([_t(x) for x in ts], dim)
+    torch.sigmoid = lambda t: _t(t).map(u_sigmoid)
+    torch.tanh = lambda t: _t(t).map(u_tanh)
     torch.concat = torch.cat
     torch.stack = lambda ts, dim=0: stack(list(ts), dim)
     torch.rsqrt = lambda t: _t(t).map(u_rsqrt)
@@ -1128,8 +1315,8 @@ def install(interp):
     torch.relu = F.relu
 
     # fx: only names needed for isinstance / annotations + the single-node bookkeeping classes
-    fx = I.NS('torch.fx', Node=FxNode, GraphModule=FxGraphModule, Graph=FxGraph, Tracer=I.Missing('fx.Tracer'),
-              passes=I.NS('passes', shape_prop=I.NS('shape_prop', ShapeProp=I.Missing('ShapeProp'))))
+    fx = I.NS('torch.fx', Node=FxNode, GraphModule=nn._fx_stubs['GraphModule'], Graph=FxGraph, Tracer=nn._fx_stubs['Tracer'],
+              passes=I.NS('passes', shape_prop=I.NS('shape_prop', ShapeProp=nn._fx_stubs['ShapeProp'])))
     torch.fx = fx
     torch.vmap = I.Missing('torch.vmap')
     torch.onnx = I.Missing('torch.onnx')
@@ -1181,7 +1368,8 @@ def install(interp):
     ENUM = I.StubClass('Enum', {})
     enum = I.NS('enum', Enum=ENUM, IntEnum=ENUM, auto=lambda: None)
     operator = I.NS('operator', add=B(lambda it, a, b: it.binop(ast.Add(), a, b)), sub=B(lambda it, a, b: it.binop(ast.Sub(), a, b)),
-                    mul=B(lambda it, a, b: it.binop(ast.Mult(), a, b)), getitem=B(lambda it, a, b: it.getitem(a, b)))
+                    mul=B(lambda it, a, b: it.binop(ast.Mult(), a, b)), truediv=B(lambda it, a, b: it.binop(ast.Div(), a, b)),
+                    getitem=B(lambda it, a, b: it.getitem(a, b)))
     functools = I.NS('functools', reduce=B(lambda it, f, xs, *init: _reduce(it, f, list(it.iterate(xs)), *init)),
                      partial=B(lambda it, f, *a, **k: B(lambda it2, *a2, **k2: it.call(f, list(a) + list(a2), {**k, **k2}))))
     def ud_get(it, s, k, default=None):
@@ -1201,6 +1389,12 @@ def install(interp):
                         'enum_Enum': ENUM, 'networkx': I.NS('networkx', DiGraph=NxDiGraph, weakly_connected_components=nx_weakly_connected_components), 'os': I.Missing('os'), 'sys': I.Missing('sys'),
                         'collections': I.NS('collections', OrderedDict=dict, defaultdict=I.Missing('defaultdict'), UserDict=USERDICT)})
     interp.builtins = make_builtins(interp)
+    # library entry points that become call_function nodes when applied to a torch.fx Proxy
+    interp.fx_functions = {}
+    for ns in (torch, torch.nn.functional, operator):
+        for k, v in ns.__dict__.items():
+            if (callable(v) or isinstance(v, I.InterpBuiltin)) and not isinstance(v, (I.StubClass, I.NS, type)):
+                interp.fx_functions.setdefault(id(v), k)
 
 
 def _unsupported(msg):
